@@ -6,6 +6,9 @@
 set -e
 cd "$(dirname "$0")"
 V=.venv
+# concurrent checks (seed runs, parallel quick checks) must not build the venv at the same time
+exec 9>.venv.lock
+flock 9
 if [ -x $V/bin/python ] && $V/bin/python -c "import z3, DocumentTemplate, jsonschema" 2>/dev/null; then
   exit 0
 fi
